@@ -15,6 +15,7 @@
 #include <signal.h>
 #include <sys/mman.h>
 #include <sys/time.h>
+#include <dlfcn.h>
 #include <unistd.h>
 #include <utility>
 #include <type_traits>
@@ -1318,7 +1319,36 @@ int mode_interop(const Args& args) {
   g_has_avx = ci.features().x86().has_avx() && ci.features().x86().has_avx2();
   g_has_avx512 = ci.features().x86().has_avx512_f();
   install_handlers();
-  register_sigs();
+  if (args.u64("fixed", 1)) register_sigs();
+  // generated callees/callers: shared objects produced by vlib/props/c06.py for this run's signatures (gcc, -mavx512f as available)
+  {
+    struct GenEntry { const char* ret; const char* args[16]; int nargs; void* callee[2]; void (*caller[2])(void*); };
+    std::string libs = args.str("callees", "");
+    size_t pos = 0;
+    while (pos < libs.size()) {
+      size_t e = libs.find(',', pos);
+      if (e == std::string::npos) e = libs.size();
+      std::string path = libs.substr(pos, e - pos);
+      pos = e + 1;
+      if (path.empty()) continue;
+      void* h = dlopen(path.c_str(), RTLD_NOW | RTLD_LOCAL);
+      if (!h) { fprintf(stderr, "dlopen %s: %s\n", path.c_str(), dlerror()); return 5; }
+      typedef void (*BindFn)(void*, void*, void*, void*);
+      BindFn bind = (BindFn)dlsym(h, "c06_gen_bind");
+      int* count = (int*)dlsym(h, "c06_gen_count");
+      GenEntry* table = (GenEntry*)dlsym(h, "c06_gen_table");
+      if (!bind || !count || !table) { fprintf(stderr, "%s: missing symbols\n", path.c_str()); return 5; }
+      bind(&g_cal, g_in, g_retval, g_retout);
+      for (int i = 0; i < *count; i++) {
+        SigEntry se;
+        se.ret = type_by_name(table[i].ret);
+        for (int k = 0; k < table[i].nargs; k++) se.args.push_back(type_by_name(table[i].args[k]));
+        se.c_callee[0] = table[i].callee[0]; se.c_callee[1] = table[i].callee[1];
+        se.c_caller[0] = table[i].caller[0]; se.c_caller[1] = table[i].caller[1];
+        g_sigs.push_back(se);
+      }
+    }
+  }
   JitRuntime rt;
   IoStats st;
   Rng rng(seed * 0x2545F4914F6CDD1Dull + 6);
